@@ -214,11 +214,12 @@ Variables svc prod : str.
 Notation Iv := (Iv svc prod).
 Notation genuine := (genuine svc prod).
 
-(* who uses which cache: the bookkeeping that makes "close my own cache" harmless for everybody else *)
+(* who uses which cache: the bookkeeping that makes "close my own cache" harmless for everybody else.  cf: the factories whose Close has
+   run (a ghost of the history; the model keeps no such flag) *)
 Record OW (cf : list nat) (D : nat -> Prop) (w : world) : Prop := {
   ow_fact : forall f fa, nth_error (w_factories w) f = Some fa -> ~ In f cf -> cache_live D (fa_sk fa) /\ cache_live D (fa_ik fa);
   ow_sess : forall s x, nth_error (w_sessions w) s = Some x ->
-      ss_cached x = false /\ (ss_torn x = false -> ss_own_ik x = true \/ ~ In (ss_factory x) cf -> cache_live D (ss_ik x));
+      ss_torn x = false -> ss_own_ik x = true \/ ~ In (ss_factory x) cf -> cache_live D (ss_ik x);
   ow_dead : forall c, D c -> (c < length (w_caches w))%nat;
   ow_salloc : forall s x cid, nth_error (w_sessions w) s = Some x -> ss_ik x = Some cid -> (cid < length (w_caches w))%nat;
   ow_falloc : forall f fa cid, nth_error (w_factories w) f = Some fa -> fa_sk fa = Some cid \/ fa_ik fa = Some cid -> (cid < length (w_caches w))%nat;
@@ -230,24 +231,24 @@ Record OW (cf : list nat) (D : nat -> Prop) (w : world) : Prop := {
   ow_shared : forall s x, nth_error (w_sessions w) s = Some x -> ss_own_ik x = false ->
       exists fa, nth_error (w_factories w) (ss_factory x) = Some fa /\ ss_ik x = fa_ik fa }.
 
-(* cf: the factories whose Close has run (a ghost of the history; the model keeps no such flag) *)
-Definition HILD (cf : list nat) (w : world) : Prop := exists D kinds H, IL D svc prod kinds H w /\ no_scache w /\ OW cf D w.
+Definition HILD (cf : list nat) (w : world) : Prop := exists D kinds H, IL D svc prod kinds H w /\ OW cf D w.
 
 Definition benignD (o : hop) : Prop :=
   match o with
-  | HNewFactory p s0 pr suf => s0 = svc /\ pr = prod /\ suf = None /\ Coherent.pol_ok p /\ p_cache_sessions p = false
+  | HNewFactory p s0 pr suf => s0 = svc /\ pr = prod /\ suf = None /\ Coherent.pol_ok p
   | HCloseSession _ | HCloseFactory _ | HGetSession _ _ | HEncrypt _ _ _ | HDecrypt _ _ _ _ | HAdvance _ | HRevoke _ _ => True
   | _ => False
   end.
 
-(* the operation does not address a session whose Close has already run *)
+(* the operation does not address a session whose underlying encryption has been closed (its own Close for a plain session; for a session
+   of the session cache: evicted and released by its last holder), nor a session of a closed factory; nothing is closed twice *)
 Definition open_sess (cf : list nat) (w : world) (s : nat) : Prop :=
   forall x, nth_error (w_sessions w) s = Some x -> ss_torn x = false /\ ~ In (ss_factory x) cf.
 Definition untorn (w : world) (s : nat) : Prop := forall x, nth_error (w_sessions w) s = Some x -> ss_torn x = false.
 Definition live_op (cf : list nat) (w : world) (o : hop) : Prop :=
   match o with
-  | HEncrypt s _ _ | HDecrypt s _ _ _ => open_sess cf w s      (* its own Close has not run, nor its factory's *)
-  | HCloseSession s => untorn w s                              (* no double Close *)
+  | HEncrypt s _ _ | HDecrypt s _ _ _ => open_sess cf w s
+  | HCloseSession s => untorn w s
   | HCloseFactory f => ~ In f cf
   | _ => True
   end.
@@ -255,7 +256,7 @@ Definition cf_after (cf : list nat) (o : hop) : list nat := match o with HCloseF
 
 Lemma OW_sess_live cf D w s : OW cf D w -> open_sess cf w s -> sess_live D s w.
 Proof.
-  intros O Op x fa Hs Hf. destruct (Op x Hs) as [T NF]. split; [exact (proj1 (ow_fact cf D w O _ fa Hf NF)) | exact (proj2 (ow_sess cf D w O s x Hs) T (or_intror NF))].
+  intros O Op x fa Hs Hf. destruct (Op x Hs) as [T NF]. split; [exact (proj1 (ow_fact cf D w O _ fa Hf NF)) | exact (ow_sess cf D w O s x Hs T (or_intror NF))].
 Qed.
 
 (* the owner bookkeeping depends on the three tables only *)
@@ -291,66 +292,77 @@ Proof.
     (split; [reflexivity|]; split; [lia|]; eexists; split; [reflexivity|]; cbn; intros cid [X|X]; inversion X; subst; rewrite ?app_length; cbn; lia).
 Qed.
 
-Lemma new_session_shape f id fa w :
+Lemma new_session_shape f id cached0 fa w :
   nth_error (w_factories w) f = Some fa ->
-  let w' := snd (new_session f id false w) in
+  let w' := snd (new_session f id cached0 w) in
   w_factories w' = w_factories w /\ (length (w_caches w) <= length (w_caches w'))%nat /\
-  exists x, w_sessions w' = w_sessions w ++ [x] /\ ss_cached x = false /\ ss_torn x = false /\ ss_factory x = f /\
+  exists x, w_sessions w' = w_sessions w ++ [x] /\ ss_torn x = false /\ ss_factory x = f /\
     ((ss_own_ik x = false /\ ss_ik x = fa_ik fa /\ length (w_caches w') = length (w_caches w)) \/
      (ss_own_ik x = true /\ ss_ik x = Some (length (w_caches w)) /\ length (w_caches w') = S (length (w_caches w))) \/
      (ss_own_ik x = true /\ ss_ik x = None /\ length (w_caches w') = length (w_caches w))).
 Proof.
   intro Ef. unfold new_session, get_factory, bind, gets, ret, upd, new_keycache. cbn. rewrite Ef. cbn.
   destruct (use_shared_ik (fa_policy fa)); [|destruct (p_cache_ik (fa_policy fa))]; cbn; rewrite ?app_length; cbn;
-    (split; [reflexivity|]; split; [lia|]; eexists; split; [reflexivity|]; split; [reflexivity|]; split; [reflexivity|]; split; [reflexivity|]); cbn.
+    (split; [reflexivity|]; split; [lia|]; eexists; split; [reflexivity|]; split; [reflexivity|]; split; [reflexivity|]); cbn.
   - left. repeat split.
   - right. left. repeat split; rewrite ?app_length; cbn; lia.
   - right. right. repeat split.
 Qed.
 
-Definition torn_copy (x : session) : session :=
-  {| ss_factory := ss_factory x; ss_part := ss_part x; ss_ik := ss_ik x; ss_own_ik := ss_own_ik x; ss_cached := ss_cached x;
-     ss_usage := ss_usage x; ss_evicted := ss_evicted x; ss_torn := true |}.
+Lemma new_session_none f id cached0 w : nth_error (w_factories w) f = None -> snd (new_session f id cached0 w) = w.
+Proof. intro Ef. unfold new_session, get_factory, bind, gets, ret, fail. cbn. rewrite Ef. reflexivity. Qed.
 
-Lemma session_close_runD s0 w x :
-  nth_error (w_sessions w) s0 = Some x -> ss_cached x = false ->
-  session_close s0 w = (if ss_own_ik x then kc_close (ss_ik x) else ret tt) (with_sessions (set_nth s0 (torn_copy x) (w_sessions w)) w).
+(* replacing a session's record by one that differs in the sharing bookkeeping only (usage, evicted) or is marked closed *)
+Lemma OW_upd_session cf D w s0 x y :
+  nth_error (w_sessions w) s0 = Some x ->
+  ss_ik y = ss_ik x -> ss_own_ik y = ss_own_ik x -> ss_factory y = ss_factory x -> (ss_torn y = false -> ss_torn x = false) ->
+  OW cf D w -> OW cf D (with_sessions (set_nth s0 y (w_sessions w)) w).
 Proof.
-  intros Es C1. cbv beta iota delta [session_close bind get_session gets ret fail]. rewrite Es. cbv beta iota. rewrite C1.
-  cbv beta iota delta [envelope_close bind get_session gets ret fail put_session upd]. rewrite Es. cbv beta iota.
-  unfold torn_copy. destruct (ss_own_ik x); reflexivity.
-Qed.
-
-Lemma session_close_none s0 w : nth_error (w_sessions w) s0 = None -> session_close s0 w = (inl ErrPanic, w).
-Proof. intro Es. cbv beta iota delta [session_close bind get_session gets ret fail]. rewrite Es. reflexivity. Qed.
-
-(* marking a session closed *)
-Lemma OW_torn cf D w s0 x :
-  nth_error (w_sessions w) s0 = Some x -> OW cf D w -> OW cf D (with_sessions (set_nth s0 (torn_copy x) (w_sessions w)) w).
-Proof.
-  intros Es [A B C D1 D2 E F G].
-  assert (Look : forall s y, nth_error (set_nth s0 (torn_copy x) (w_sessions w)) s = Some y ->
-            (s = s0 /\ y = torn_copy x) \/ (s <> s0 /\ nth_error (w_sessions w) s = Some y)).
-  { intros s y Hy. destruct (Nat.eq_dec s s0) as [->|Ne].
-    - left. rewrite (nth_error_set_nth_same _ _ _ _ Es) in Hy. inversion Hy. split; reflexivity.
-    - right. rewrite nth_error_set_nth_other' in Hy by congruence. split; assumption. }
-  assert (Old : forall s y, nth_error (set_nth s0 (torn_copy x) (w_sessions w)) s = Some y ->
-            exists y0, nth_error (w_sessions w) s = Some y0 /\ ss_ik y = ss_ik y0 /\ ss_own_ik y = ss_own_ik y0 /\ ss_cached y = ss_cached y0 /\
-                       ss_factory y = ss_factory y0 /\ (ss_torn y = false -> ss_torn y0 = false)).
-  { intros s y Hy. destruct (Look s y Hy) as [[-> ->]|[_ Hy0]].
-    - exists x. split; [exact Es|]. cbn. repeat split. discriminate.
-    - exists y. split; [exact Hy0|]. repeat split. tauto. }
+  intros Es Ei Eo Ef Et [A B C D1 D2 E F G].
+  assert (Old : forall s z, nth_error (set_nth s0 y (w_sessions w)) s = Some z ->
+            exists z0, nth_error (w_sessions w) s = Some z0 /\ ss_ik z = ss_ik z0 /\ ss_own_ik z = ss_own_ik z0 /\
+                       ss_factory z = ss_factory z0 /\ (ss_torn z = false -> ss_torn z0 = false)).
+  { intros s z Hz. destruct (Nat.eq_dec s s0) as [->|Ne].
+    - rewrite (nth_error_set_nth_same _ _ _ _ Es) in Hz. inversion Hz; subst z. exists x. repeat split; assumption.
+    - rewrite nth_error_set_nth_other' in Hz by congruence. exists z. repeat split; try assumption; tauto. }
   constructor; cbn [w_sessions w_factories w_caches with_sessions].
   - exact A.
-  - intros s y Hy. destruct (Old s y Hy) as [y0 [H0 [E1 [E2 [E3 [E5 E4]]]]]]. destruct (B s y0 H0) as [P Q]. rewrite E3, E1, E2, E5. split; [exact P | intros T X; exact (Q (E4 T) X)].
+  - intros s z Hz T Z. destruct (Old s z Hz) as [z0 [H0 [E1 [E2 [E5 E4]]]]]. rewrite E1. rewrite E2, E5 in Z. exact (B s z0 H0 (E4 T) Z).
   - exact C.
-  - intros s y cid Hy Hi. destruct (Old s y Hy) as [y0 [H0 [E1 _]]]. rewrite E1 in Hi. exact (D1 s y0 cid H0 Hi).
+  - intros s z cid Hz Hi. destruct (Old s z Hz) as [z0 [H0 [E1 _]]]. rewrite E1 in Hi. exact (D1 s z0 cid H0 Hi).
   - exact D2.
-  - intros s y cid Hy Ho Hi. destruct (Old s y Hy) as [y0 [H0 [E1 [E2 _]]]]. rewrite E1 in Hi. rewrite E2 in Ho.
-    destruct (E s y0 cid H0 Ho Hi) as [P Q]. split; [|exact Q].
-    intros s' y' Hy' Hi'. destruct (Old s' y' Hy') as [y1 [H1 [F1 _]]]. rewrite F1 in Hi'. exact (P s' y1 H1 Hi').
+  - intros s z cid Hz Ho Hi. destruct (Old s z Hz) as [z0 [H0 [E1 [E2 _]]]]. rewrite E1 in Hi. rewrite E2 in Ho.
+    destruct (E s z0 cid H0 Ho Hi) as [P Q]. split; [|exact Q].
+    intros s' z' Hz' Hi'. destruct (Old s' z' Hz') as [z1 [H1 [F1 _]]]. rewrite F1 in Hi'. exact (P s' z1 H1 Hi').
   - exact F.
-  - intros s y Hy Ho. destruct (Old s y Hy) as [y0 [H0 [E1 [E2 [_ [E5 _]]]]]]. rewrite E2 in Ho. rewrite E1, E5. exact (G s y0 H0 Ho).
+  - intros s z Hz Ho. destruct (Old s z Hz) as [z0 [H0 [E1 [E2 [E5 _]]]]]. rewrite E2 in Ho. rewrite E1, E5. exact (G s z0 H0 Ho).
+Qed.
+
+(* replacing a factory's record by one with the same key caches (its session cache changed) *)
+Lemma OW_upd_factory cf D w f0 fa fb :
+  nth_error (w_factories w) f0 = Some fa -> fa_sk fb = fa_sk fa -> fa_ik fb = fa_ik fa ->
+  OW cf D w -> OW cf D (with_factories (set_nth f0 fb (w_factories w)) w).
+Proof.
+  intros Ef Es Ei [A B C D1 D2 E F G].
+  assert (Old : forall f z, nth_error (set_nth f0 fb (w_factories w)) f = Some z ->
+            exists z0, nth_error (w_factories w) f = Some z0 /\ fa_sk z = fa_sk z0 /\ fa_ik z = fa_ik z0).
+  { intros f z Hz. destruct (Nat.eq_dec f f0) as [->|Ne].
+    - rewrite (nth_error_set_nth_same _ _ _ _ Ef) in Hz. inversion Hz; subst z. exists fa. repeat split; assumption.
+    - rewrite nth_error_set_nth_other' in Hz by congruence. exists z. repeat split; assumption. }
+  constructor; cbn [w_sessions w_factories w_caches with_factories].
+  - intros f z Hz NI. destruct (Old f z Hz) as [z0 [H0 [E1 E2]]]. rewrite E1, E2. exact (A f z0 H0 NI).
+  - exact B.
+  - exact C.
+  - exact D1.
+  - intros f z cid Hz Hc. destruct (Old f z Hz) as [z0 [H0 [E1 E2]]]. rewrite E1, E2 in Hc. exact (D2 f z0 cid H0 Hc).
+  - intros s x cid Hs Ho Hi. destruct (E s x cid Hs Ho Hi) as [P Q]. split; [exact P|].
+    intros f z Hz. destruct (Old f z Hz) as [z0 [H0 [E1 E2]]]. rewrite E1, E2. exact (Q f z0 H0).
+  - intros f1 z1 f2 z2 cid H1 H2 C1 C2. destruct (Old f1 z1 H1) as [y1 [K1 [E1 E2]]]. destruct (Old f2 z2 H2) as [y2 [K2 [E3 E4]]].
+    rewrite E1, E2 in C1. rewrite E3, E4 in C2. exact (F f1 y1 f2 y2 cid K1 K2 C1 C2).
+  - intros s x Hs Ho. destruct (G s x Hs Ho) as [z0 [H0 Ei0]].
+    destruct (Nat.eq_dec (ss_factory x) f0) as [Eq|Ne].
+    + exists fb. rewrite Eq in *. rewrite Ef in H0. inversion H0; subst z0. split; [exact (nth_error_set_nth_same _ _ _ _ Ef) | congruence].
+    + exists z0. split; [rewrite nth_error_set_nth_other' by congruence; exact H0 | exact Ei0].
 Qed.
 
 (* the cache a closed session owned is dead *)
@@ -361,7 +373,7 @@ Proof.
   constructor.
   - intros f fa Hf NF. destruct (A f fa Hf NF) as [X Y]. destruct (Q f fa Hf) as [Q1 Q2].
     split; intros c Ec [Dc|Eq]; [exact (X c Ec Dc) | congruence | exact (Y c Ec Dc) | congruence].
-  - intros s y Hy. destruct (B s y Hy) as [X Y]. split; [exact X|]. intros Ty Z c Ec [Dc|Eq]; [exact (Y Ty Z c Ec Dc)|].
+  - intros s y Hy Ty Z c Ec [Dc|Eq]; [exact (B s y Hy Ty Z c Ec Dc)|].
     subst c. pose proof (P s y Hy Ec) as Eqs. subst s. rewrite Es in Hy. inversion Hy; subst y. congruence.
   - intros c [Dc|Eq]; [exact (C c Dc) | subst c; exact (D1 s0 x cid Es Hi)].
   - exact D1.
@@ -385,18 +397,17 @@ Proof.
     assert (NI' : ~ In f' cf) by (intro X; apply NI; right; exact X).
     destruct (A f' fa' Hf' NI') as [X Y].
     split; intros c Ec Dc; [exact (X c Ec (Other f' fa' c Hf' Ne (or_introl Ec) Dc)) | exact (Y c Ec (Other f' fa' c Hf' Ne (or_intror Ec) Dc))].
-  - intros s y Hy. destruct (B s y Hy) as [X Y]. split; [exact X|]. intros Ty Z c Ec Dc.
+  - intros s y Hy Ty Z c Ec Dc.
     destruct (ss_own_ik y) eqn:Ho.
-    + (* an owned cache is no factory's cache *)
-      destruct (E s y c Hy Ho Ec) as [_ Q]. destruct (Sup c Dc) as [Dc0|[Xs|Xi]].
-      * exact (Y Ty (or_introl eq_refl) c Ec Dc0).
+    + destruct (E s y c Hy Ho Ec) as [_ Q]. destruct (Sup c Dc) as [Dc0|[Xs|Xi]].
+      * exact (B s y Hy Ty (or_introl Ho) c Ec Dc0).
       * exact (proj1 (Q f fa Ef) Xs).
       * exact (proj2 (Q f fa Ef) Xi).
     + destruct Z as [Z|Z]; [discriminate Z|].
       assert (Ne : ss_factory y <> f) by (intro Eq; apply Z; left; congruence).
       assert (Z' : ~ In (ss_factory y) cf) by (intro W; apply Z; right; exact W).
       destruct (G s y Hy Ho) as [fa' [Hf' Ei]]. rewrite Ei in Ec.
-      exact (Y Ty (or_intror Z') c ltac:(rewrite Ei; exact Ec) (Other _ fa' c Hf' Ne (or_intror Ec) Dc)).
+      exact (B s y Hy Ty (or_intror Z') c ltac:(rewrite Ei; exact Ec) (Other _ fa' c Hf' Ne (or_intror Ec) Dc)).
   - intros c Dc. destruct (Sup c Dc) as [X|[X|X]]; [exact (C c X) | exact (D2 f fa c Ef (or_introl X)) | exact (D2 f fa c Ef (or_intror X))].
   - exact D1'.
   - exact D2.
@@ -405,38 +416,17 @@ Proof.
   - exact G.
 Qed.
 
+(* closing a factory that does not exist: the list grows, nothing else changes *)
+Lemma OW_cf_cons cf D w f : OW cf D w -> OW (f :: cf) D w.
+Proof.
+  intros [A B C D1 D2 E F G]. constructor; try assumption.
+  - intros f' fa' Hf' NI. apply (A f' fa' Hf'). intro W. apply NI. right. exact W.
+  - intros s x Hs T [Z|Z]; [exact (B s x Hs T (or_introl Z)) | apply (B s x Hs T); right; intro W; apply Z; right; exact W].
+Qed.
+
 Lemma Iv_len kinds w : Iv kinds w -> length kinds = length (w_caches w).
 Proof. intros [_ [X _ _ _]]. exact X. Qed.
 
-Lemma factory_get_session_run f id w :
-  no_scache w ->
-  factory_get_session f id w = (inr None, w) \/ factory_get_session f id w = (inl ErrPanic, w) \/
-  exists fa, nth_error (w_factories w) f = Some fa /\
-             factory_get_session f id w = match new_session f id false w with (inl e, w') => (inl e, w') | (inr s0, w') => (inr (Some s0), w') end.
-Proof.
-  intros NSc. unfold factory_get_session. destruct (negb (get_session_ok id)); [left; reflexivity|]. right.
-  destruct (nth_error (w_factories w) f) as [fa|] eqn:Ef.
-  - right. exists fa. split; [reflexivity|].
-    cbv beta iota delta [bind get_factory gets ret fail]. rewrite Ef. cbv beta iota. rewrite (NSc f fa Ef).
-    destruct (new_session f id false w) as [[er|a] w']; reflexivity.
-  - left. cbv beta iota delta [bind get_factory gets ret fail]. rewrite Ef. reflexivity.
-Qed.
-
-
-Lemma OW_begin cf D fs w : OW cf D w -> OW cf D (begin_op fs w).
-Proof. apply OW_same; reflexivity. Qed.
-
-Lemma factory_close_runD f w fa :
-  nth_error (w_factories w) f = Some fa -> fa_scache fa = None ->
-  factory_close f w = ((if use_shared_ik (fa_policy fa) then kc_close (fa_ik fa) else ret tt) ;;; kc_close (fa_sk fa)) w.
-Proof.
-  intros Ef Ns. cbv beta iota delta [factory_close bind get_factory gets ret fail]. rewrite Ef. cbv beta iota. rewrite Ns. reflexivity.
-Qed.
-
-Lemma factory_close_none f w : nth_error (w_factories w) f = None -> factory_close f w = (inl ErrPanic, w).
-Proof. intro Ef. cbv beta iota delta [factory_close bind get_factory gets ret fail]. rewrite Ef. reflexivity. Qed.
-
-(* keyCache.Close of an optional cache *)
 Definition Dopt (D : nat -> Prop) (c : option nat) : nat -> Prop := match c with Some cid => Dplus D cid | None => D end.
 
 Lemma kc_close_opt_L D H c :
@@ -448,210 +438,404 @@ Proof.
   - intros w L. cbn. exact L.
 Qed.
 
+(* ---- programs under which the invariant survives, whatever their outcome ------------------------------------------------- *)
+Definition keeps (cf : list nat) {A} (m : M A) : Prop := forall w, HILD cf w -> HILD cf (snd (m w)).
+
+Lemma keeps_ret cf {A} (a : A) : keeps cf (ret a). Proof. intros w Hw. exact Hw. Qed.
+Lemma keeps_fail cf {A} e : keeps cf (@fail A e). Proof. intros w Hw. exact Hw. Qed.
+Lemma keeps_gets cf {A} (f : world -> A) : keeps cf (gets f). Proof. intros w Hw. exact Hw. Qed.
+Lemma keeps_bind cf {A B} (m : M A) (f : A -> M B) : keeps cf m -> (forall a, keeps cf (f a)) -> keeps cf (bind m f).
+Proof. intros Km Kf w Hw. unfold bind. specialize (Km w Hw). destruct (m w) as [[e|a] w1]; cbn [snd] in *; [exact Km | exact (Kf a w1 Km)]. Qed.
+
+Lemma hoare_snd {A} (P : world -> Prop) (m : M A) w : hoare P m (fun _ w' => P w') P -> P w -> P (snd (m w)).
+Proof. intros Hm Hw. specialize (Hm w Hw). destruct (m w) as [[e|a] w1]; exact Hm. Qed.
+
+Definition torn_copy (x : session) : session :=
+  {| ss_factory := ss_factory x; ss_part := ss_part x; ss_ik := ss_ik x; ss_own_ik := ss_own_ik x; ss_cached := ss_cached x;
+     ss_usage := ss_usage x; ss_evicted := ss_evicted x; ss_torn := true |}.
+
+Lemma envelope_close_run s w x :
+  nth_error (w_sessions w) s = Some x ->
+  envelope_close s w = (if ss_own_ik x then kc_close (ss_ik x) else ret tt) (with_sessions (set_nth s (torn_copy x) (w_sessions w)) w).
+Proof.
+  intro Es. cbv beta iota delta [envelope_close bind get_session gets ret fail put_session upd]. rewrite Es. cbv beta iota.
+  unfold torn_copy. destruct (ss_own_ik x); reflexivity.
+Qed.
+
+Lemma envelope_close_none s w : nth_error (w_sessions w) s = None -> envelope_close s w = (inl ErrPanic, w).
+Proof. intro Es. cbv beta iota delta [envelope_close bind get_session gets ret fail]. rewrite Es. reflexivity. Qed.
+
+(* envelopeEncryption.Close of a session that has not been closed before *)
+Lemma keeps_envelope_close cf s w : HILD cf w -> untorn w s -> HILD cf (snd (envelope_close s w)).
+Proof.
+  intros [D [kinds [H [[HI L] O]]]] UT.
+  pose proof (hoare_snd (Iv kinds) (envelope_close s) w (envelope_close_spec svc prod kinds s) HI) as X.
+  destruct (nth_error (w_sessions w) s) as [x|] eqn:Es.
+  2: { rewrite (envelope_close_none s w Es). cbn [snd]. exists D, kinds, H. split; [split; assumption | exact O]. }
+  pose proof (UT x Es) as T0. rewrite (envelope_close_run s w x Es) in X |- *.
+  set (w1 := with_sessions (set_nth s (torn_copy x) (w_sessions w)) w) in *.
+  assert (L1 : LInv D NoX H w1) by (eapply LInv_bookkeeping; [..|exact L]; reflexivity).
+  assert (O1 : OW cf D w1) by (apply (OW_upd_session cf D w s x (torn_copy x) Es); try reflexivity; [cbn; discriminate | exact O]).
+  assert (Es1 : nth_error (w_sessions w1) s = Some (torn_copy x)) by (unfold w1; cbn; exact (nth_error_set_nth_same _ _ _ _ Es)).
+  assert (Len1 : length kinds = length (w_caches w1)) by exact (Iv_len kinds w HI).
+  destruct (ss_own_ik x) eqn:Ho.
+  2: { cbn [ret snd] in *. exists D, kinds, H. split; [split; assumption | exact O1]. }
+  destruct (ss_ik x) as [cid|] eqn:Ei.
+  2: { cbn [kc_close ret snd] in *. exists D, kinds, H. split; [split; assumption | exact O1]. }
+  assert (NDc : ~ D cid) by exact (ow_sess cf D w O s x Es T0 (or_introl Ho) cid Ei).
+  pose proof (kc_close_L D H cid NDc w1 L1) as Y.
+  pose proof (qS_kc_close (Some cid) w1) as ES. pose proof (qF_kc_close (Some cid) w1) as [EF _].
+  destruct (kc_close (Some cid) w1) as [[er|u] w2]; cbn [snd] in *.
+  + assert (O2 : OW cf D w2) by (eapply OW_same; [exact ES | exact EF | rewrite <- (Iv_len kinds _ X), <- Len1; reflexivity | exact O1]).
+    destruct Y as [Y|[H' [_ Y]]].
+    * exists D, kinds, H. split; [split; assumption | exact O2].
+    * exists (Dplus D cid), kinds, H'. split; [split; assumption|].
+      apply (OW_kill cf D w2 s (torn_copy x) cid O2); [rewrite ES; exact Es1 | reflexivity | exact Ho | exact Ei].
+  + assert (O2 : OW cf D w2) by (eapply OW_same; [exact ES | exact EF | rewrite <- (Iv_len kinds _ X), <- Len1; reflexivity | exact O1]).
+    exists (Dplus D cid), kinds, H. split; [split; assumption|].
+    apply (OW_kill cf D w2 s (torn_copy x) cid O2); [rewrite ES; exact Es1 | reflexivity | exact Ho | exact Ei].
+Qed.
+
+(* sharedEncryption.Remove: closes the underlying encryption only if that has not happened yet *)
+Lemma keeps_try_remove cf s : keeps cf (try_remove s).
+Proof.
+  intros w Hw. unfold try_remove. cbv beta iota delta [bind get_session gets ret fail].
+  destruct (nth_error (w_sessions w) s) as [x|] eqn:Es; cbv beta iota; [|exact Hw].
+  destruct (ss_evicted x && negb (ss_torn x) && (ss_usage x <=? 0)) eqn:G; [|exact Hw].
+  apply keeps_envelope_close; [exact Hw|]. intros x' Hx'. rewrite Es in Hx'. inversion Hx'; subst x'.
+  apply andb_prop in G as [G _]. apply andb_prop in G as [_ G]. destruct (ss_torn x); [discriminate G | reflexivity].
+Qed.
+
+Lemma keeps_add_usage cf s d : keeps cf (add_usage s d).
+Proof.
+  intros w Hw. pose proof Hw as [D [kinds [H [[HI L] O]]]].
+  pose proof (hoare_snd (Iv kinds) (add_usage s d) w (add_usage_spec svc prod kinds s d) HI) as X. revert X.
+  unfold add_usage. cbv beta iota delta [bind get_session gets ret fail put_session upd].
+  destruct (nth_error (w_sessions w) s) as [x|] eqn:Es; cbv beta iota; cbn [snd]; intro X; [|exact Hw].
+  exists D, kinds, H. split; [split; [exact X | eapply LInv_bookkeeping; [..|exact L]; reflexivity]|].
+  apply (OW_upd_session cf D w s x _ Es); try reflexivity; [cbn; tauto | exact O].
+Qed.
+
+Lemma keeps_mark_evicted cf s : keeps cf (mark_evicted s).
+Proof.
+  intros w Hw. pose proof Hw as [D [kinds [H [[HI L] O]]]].
+  unfold mark_evicted. cbv beta iota delta [bind get_session gets ret fail put_session upd].
+  destruct (nth_error (w_sessions w) s) as [x|] eqn:Es; cbv beta iota; cbn [snd]; [|exact Hw].
+  apply keeps_try_remove.
+  set (y := {| ss_factory := ss_factory x; ss_part := ss_part x; ss_ik := ss_ik x; ss_own_ik := ss_own_ik x; ss_cached := ss_cached x;
+               ss_usage := ss_usage x; ss_evicted := true; ss_torn := ss_torn x |}).
+  exists D, kinds, H. split; [split; [|eapply LInv_bookkeeping; [..|exact L]; reflexivity]|].
+  - pose proof (put_same_session_spec svc prod kinds s x y) as PS.
+    assert (Same : ss_factory y = ss_factory x /\ ss_part y = ss_part x /\ ss_ik y = ss_ik x) by (repeat split).
+    specialize (PS Same w). cbv beta iota delta [put_session upd] in PS. cbn [snd fst] in PS. apply PS. split; [exact HI|]. pose proof HI as [_ [_ _ _ S]]. exact (S s x Es).
+  - apply (OW_upd_session cf D w s x y Es); try reflexivity; [cbn; tauto | exact O].
+Qed.
+
+Lemma keeps_evictions cf l : keeps cf (evictions l).
+Proof.
+  unfold evictions. induction l as [|kv l IH]; cbn [fold_right]; [apply keeps_ret|].
+  apply keeps_bind; [apply keeps_mark_evicted | intros _; exact IH].
+Qed.
+
+Lemma keeps_set_scache cf f c : keeps cf (set_scache f c).
+Proof.
+  intros w Hw. pose proof Hw as [D [kinds [H [[HI L] O]]]].
+  pose proof (hoare_snd (Iv kinds) (set_scache f c) w (set_scache_spec svc prod kinds f c) HI) as X. revert X.
+  unfold set_scache. cbv beta iota delta [bind get_factory gets ret fail put_factory upd].
+  destruct (nth_error (w_factories w) f) as [fa|] eqn:Ef; cbv beta iota; cbn [snd]; intro X; [|exact Hw].
+  exists D, kinds, H. split; [split; [exact X | eapply LInv_bookkeeping; [..|exact L]; reflexivity]|].
+  apply (OW_upd_factory cf D w f fa _ Ef); [reflexivity | reflexivity | exact O].
+Qed.
+
+(* the key caches of a factory stay what they are *)
+Definition kcsame (w w' : world) : Prop :=
+  forall f fa, nth_error (w_factories w) f = Some fa -> exists fa', nth_error (w_factories w') f = Some fa' /\ fa_sk fa' = fa_sk fa /\ fa_ik fa' = fa_ik fa.
+Lemma kcsame_refl w : kcsame w w. Proof. intros f fa Hf. exists fa. repeat split; assumption. Qed.
+Lemma kcsame_trans a b c : kcsame a b -> kcsame b c -> kcsame a c.
+Proof. intros X Y f fa Hf. destruct (X f fa Hf) as [fb [Hb [E1 E2]]]. destruct (Y f fb Hb) as [fc [Hc [E3 E4]]]. exists fc. split; [exact Hc | split; congruence]. Qed.
+Definition kcs {A} (m : M A) : Prop := forall w, kcsame w (snd (m w)).
+Lemma kcs_of_qF {A} (m : M A) : qF m -> kcs m.
+Proof. intros Q w f fa Hf. exists fa. rewrite (proj1 (Q w)). repeat split; assumption. Qed.
+Lemma kcs_bind {A B} (m : M A) (f : A -> M B) : kcs m -> (forall a, kcs (f a)) -> kcs (bind m f).
+Proof. intros Km Kf w. unfold bind. specialize (Km w). destruct (m w) as [[e|a] w1]; cbn [snd] in *; [exact Km | eapply kcsame_trans; [exact Km | exact (Kf a w1)]]. Qed.
+Lemma kcs_ret {A} (a : A) : kcs (ret a). Proof. intro w. apply kcsame_refl. Qed.
+
+Local Hint Resolve qF_kc_close : qF.
+Lemma qF_envelope_close s : qF (envelope_close s). Proof. unfold envelope_close. qF_go. Qed.
+Local Hint Resolve qF_envelope_close : qF.
+Lemma qF_try_remove s : qF (try_remove s). Proof. unfold try_remove. qF_go. Qed.
+Local Hint Resolve qF_try_remove : qF.
+Lemma qF_mark_evicted s : qF (mark_evicted s). Proof. unfold mark_evicted. qF_go. Qed.
+Lemma qF_evictions l : qF (evictions l).
+Proof. unfold evictions. induction l as [|kv l IH]; cbn [fold_right]; [apply qF_ret | apply qF_bind; [apply qF_mark_evicted | intros _; exact IH]]. Qed.
+
+Lemma kcs_set_scache f c : kcs (set_scache f c).
+Proof.
+  intros w f0 fa0 Hf0. unfold set_scache. cbv beta iota delta [bind get_factory gets ret fail put_factory upd].
+  destruct (nth_error (w_factories w) f) as [fa|] eqn:Ef; cbv beta iota; cbn [snd]; [|exists fa0; repeat split; assumption].
+  cbn [w_factories with_factories]. destruct (Nat.eq_dec f0 f) as [->|Ne].
+  - rewrite Ef in Hf0. inversion Hf0; subst fa0. eexists. split; [exact (nth_error_set_nth_same _ _ _ _ Ef) | split; reflexivity].
+  - exists fa0. split; [rewrite nth_error_set_nth_other' by congruence; exact Hf0 | split; reflexivity].
+Qed.
+
+(* NewSessionFactory, any policy *)
+Lemma keeps_new_factory cf p : Coherent.pol_ok p -> keeps cf (new_factory p svc prod None).
+Proof.
+  intros PO w [D [kinds [H [[HI0 L0] O0]]]].
+  pose proof (new_factory_spec svc prod kinds p PO _ HI0) as X.
+  pose proof (new_factory_LInv D svc prod H p PO w L0) as Y.
+  pose proof (new_factory_shape p svc prod None w) as [ES [LE [fa [EF FR]]]].
+  destruct (new_factory p svc prod None w) as [[er|a] w']; cbn [snd] in *; [contradiction|].
+  destruct X as [kinds' HI']. exists D, kinds', H. split; [split; assumption|].
+  destruct O0 as [A Bs C D1 D2 E Fu G]. constructor.
+  - intros f fa' Hf NF. rewrite EF in Hf. apply nth_error_snoc in Hf as [[Hf _]|[-> _]]; [exact (A f fa' Hf NF)|].
+    split; intros c Ec Dc; pose proof (C c Dc); [pose proof (FR c (or_introl Ec)) | pose proof (FR c (or_intror Ec))]; lia.
+  - intros s x. rewrite ES. apply Bs.
+  - intros c Dc. pose proof (C c Dc). lia.
+  - intros s x cid. rewrite ES. intros Hs Hi. pose proof (D1 s x cid Hs Hi). lia.
+  - intros f fa' cid Hf Hc. rewrite EF in Hf. apply nth_error_snoc in Hf as [[Hf _]|[-> _]]; [pose proof (D2 f fa' cid Hf Hc); lia | pose proof (FR cid Hc); lia].
+  - intros s x cid Hs Ho Hi. rewrite ES in Hs. destruct (E s x cid Hs Ho Hi) as [P Q]. split; [intros s' x' Hs'; rewrite ES in Hs'; exact (P s' x' Hs')|].
+    intros f fa' Hf. rewrite EF in Hf. apply nth_error_snoc in Hf as [[Hf _]|[-> _]]; [exact (Q f fa' Hf)|].
+    pose proof (D1 s x cid Hs Hi). split; intro Ec; [pose proof (FR cid (or_introl Ec)) | pose proof (FR cid (or_intror Ec))]; lia.
+  - intros f1 fa1 f2 fa2 cid Hf1 Hf2 Hc1 Hc2. rewrite EF in Hf1, Hf2.
+    apply nth_error_snoc in Hf1 as [[Hf1 Lt1]|[-> Eq1]]; apply nth_error_snoc in Hf2 as [[Hf2 Lt2]|[-> Eq2]].
+    + exact (Fu f1 fa1 f2 fa2 cid Hf1 Hf2 Hc1 Hc2).
+    + pose proof (D2 f1 fa1 cid Hf1 Hc1). pose proof (FR cid Hc2). lia.
+    + pose proof (D2 f2 fa2 cid Hf2 Hc2). pose proof (FR cid Hc1). lia.
+    + congruence.
+  - intros s x Hs Ho. rewrite ES in Hs. destruct (G s x Hs Ho) as [fa' [Hf' Ei]]. exists fa'. split; [|exact Ei].
+    rewrite EF. rewrite nth_error_app1; [exact Hf' | apply nth_error_Some; congruence].
+Qed.
+
+(* newSession, cached or not *)
+Lemma keeps_new_session cf f id cached0 : keeps cf (new_session f id cached0).
+Proof.
+  intros w0 [D [kinds [H [HIL1 O0]]]].
+  destruct (nth_error (w_factories w0) f) as [fa|] eqn:Ef.
+  2: { rewrite (new_session_none f id cached0 w0 Ef). exists D, kinds, H. split; assumption. }
+  pose proof (new_session_spec svc prod kinds f id cached0 w0 (proj1 HIL1)) as X.
+  pose proof (new_session_LInv D svc prod kinds H f id cached0 w0 HIL1) as Y.
+  pose proof (new_session_shape f id cached0 fa w0 Ef) as [EF' [LE' [x [ES' [T1 [Fx Sh']]]]]].
+  assert (HI' : exists kinds', Iv kinds' (snd (new_session f id cached0 w0))) by (destruct (new_session f id cached0 w0) as [[er|a] w']; exact X).
+  assert (L' : LInv D NoX H (snd (new_session f id cached0 w0))) by (destruct (new_session f id cached0 w0) as [[er|a] w']; exact Y).
+  set (w' := snd (new_session f id cached0 w0)) in *. clearbody w'.
+  destruct HI' as [kinds' HI']. exists D, kinds', H. split; [split; assumption|].
+  destruct O0 as [A Bs C D1 D2 E Fu G]. constructor.
+  - intros f0 fa0. rewrite EF'. apply A.
+  - intros s0 y Hy. rewrite ES' in Hy. apply nth_error_snoc in Hy as [[Hy _]|[-> _]]; [exact (Bs s0 y Hy)|]. intros _ Z.
+    destruct Sh' as [[Eo [Ei _]]|[[_ [Ei _]]|[_ [Ei _]]]]; rewrite Ei.
+    + destruct Z as [Z|Z]; [congruence|]. rewrite Fx in Z. exact (proj2 (A f fa Ef Z)).
+    + intros c Ec Dc. assert (Ecc : c = length (w_caches w0)) by congruence. rewrite Ecc in Dc. pose proof (C _ Dc) as Q. revert Q. clear. intro Q. lia.
+    + intros c Ec. discriminate Ec.
+  - intros c Dc. pose proof (C c Dc). lia.
+  - intros s0 y cid Hy Hi. rewrite ES' in Hy. apply nth_error_snoc in Hy as [[Hy _]|[-> _]]; [pose proof (D1 s0 y cid Hy Hi); lia|].
+    destruct Sh' as [[_ [Ei _]]|[[_ [Ei El]]|[_ [Ei _]]]]; rewrite Ei in Hi.
+    + pose proof (D2 f fa cid Ef (or_intror Hi)). lia.
+    + inversion Hi; subst cid. lia.
+    + discriminate Hi.
+  - intros f0 fa0 cid Hf Hc. rewrite EF' in Hf. pose proof (D2 f0 fa0 cid Hf Hc). lia.
+  - intros s0 y cid Hy Ho Hi. rewrite ES' in Hy. apply nth_error_snoc in Hy as [[Hy Lt]|[-> Eq]].
+    + destruct (E s0 y cid Hy Ho Hi) as [P Q]. split; [|intros f0 fa0 Hf; rewrite EF' in Hf; exact (Q f0 fa0 Hf)].
+      intros s' y' Hy' Hi'. rewrite ES' in Hy'. apply nth_error_snoc in Hy' as [[Hy' _]|[-> _]]; [exact (P s' y' Hy' Hi')|]. exfalso.
+      pose proof (D1 s0 y cid Hy Hi) as Al.
+      destruct Sh' as [[_ [Ei _]]|[[_ [Ei _]]|[_ [Ei _]]]]; rewrite Ei in Hi'.
+      * exact (proj2 (Q f fa Ef) Hi').
+      * inversion Hi'; subst cid. lia.
+      * discriminate Hi'.
+    + destruct Sh' as [[Eo _]|[[_ [Ei _]]|[_ [Ei _]]]]; [congruence| |congruence]. rewrite Ei in Hi. inversion Hi; subst cid. split.
+      * intros s' y' Hy' Hi'. rewrite ES' in Hy'. apply nth_error_snoc in Hy' as [[Hy' _]|[_ Eq']]; [pose proof (D1 s' y' _ Hy' Hi'); lia | congruence].
+      * intros f0 fa0 Hf. rewrite EF' in Hf. split; intro Ec; [pose proof (D2 f0 fa0 _ Hf (or_introl Ec)) | pose proof (D2 f0 fa0 _ Hf (or_intror Ec))]; lia.
+  - intros f1 fa1 f2 fa2 cid. rewrite EF'. apply Fu.
+  - intros s0 y Hy Ho. rewrite ES' in Hy. rewrite EF'. apply nth_error_snoc in Hy as [[Hy _]|[-> _]]; [exact (G s0 y Hy Ho)|].
+    destruct Sh' as [[_ [Ei _]]|[[Eo _]|[Eo _]]]; [|congruence|congruence]. exists fa. rewrite Fx. split; assumption.
+Qed.
+
+Lemma keeps_get_factory cf f : keeps cf (get_factory f).
+Proof. intros w Hw. unfold get_factory, bind, gets. cbn. destruct (nth_error (w_factories w) f); exact Hw. Qed.
+Lemma keeps_get_session cf s : keeps cf (get_session s).
+Proof. intros w Hw. unfold get_session, bind, gets. cbn. destruct (nth_error (w_sessions w) s); exact Hw. Qed.
+
+Ltac keeps_step :=
+  first
+    [ apply keeps_ret | apply keeps_fail | apply keeps_gets | apply keeps_get_factory | apply keeps_get_session
+    | apply keeps_set_scache | apply keeps_evictions | apply keeps_add_usage | apply keeps_new_session | apply keeps_try_remove
+    | apply keeps_bind; [|intro]
+    | match goal with
+      | |- keeps _ (match ?x with _ => _ end) => destruct x
+      | |- keeps _ (let '(_, _) := ?x in _) => destruct x
+      | |- keeps _ (if ?x then _ else _) => destruct x
+      end ].
+Ltac keeps_go := repeat keeps_step.
+
+(* SessionFactory.GetSession, with or without a session cache *)
+Lemma keeps_factory_get_session cf f id : keeps cf (factory_get_session f id).
+Proof. unfold factory_get_session, get_now. keeps_go. Qed.
+
+(* Session.Close of a session whose underlying encryption has not been closed *)
+Lemma keeps_session_close cf s w : HILD cf w -> untorn w s -> HILD cf (snd (session_close s w)).
+Proof.
+  intros Hw UT. unfold session_close. cbv beta iota delta [bind get_session gets ret fail].
+  destruct (nth_error (w_sessions w) s) as [x|] eqn:Es; cbv beta iota; [|exact Hw].
+  destruct (ss_cached x).
+  - apply (keeps_bind cf (add_usage s (-1)) (fun _ => try_remove s)); [apply keeps_add_usage | intros _; apply keeps_try_remove | exact Hw].
+  - exact (keeps_envelope_close cf s w Hw UT).
+Qed.
+
+Lemma HILD_cons cf f w : HILD cf w -> HILD (f :: cf) w.
+Proof. intros [D [kinds [H [HIL0 O]]]]. exists D, kinds, H. split; [exact HIL0 | exact (OW_cf_cons cf D w f O)]. Qed.
+
+(* the key caches of a factory being closed: the shared intermediate-key cache (if the policy has one), then the system-key cache *)
+Lemma keeps_close_caches cf f (b : bool) ci cs w :
+  HILD cf w -> ~ In f cf -> (exists fa0, nth_error (w_factories w) f = Some fa0 /\ fa_ik fa0 = ci /\ fa_sk fa0 = cs) ->
+  HILD (f :: cf) (snd (((if b then kc_close ci else ret tt) ;;; kc_close cs) w)).
+Proof.
+  intros [D [kinds [H [[HI0 L0] O0]]]] LO [fa [Ef [Eci Ecs]]]. subst ci cs.
+  destruct (ow_fact cf D w O0 f fa Ef LO) as [LvS LvI].
+  pose proof HI0 as [_ [_ _ CF _]]. destruct (CF f fa Ef) as [_ [_ [_ [Ks [Ki _]]]]].
+  set (c1 := if b then fa_ik fa else None).
+  assert (E1 : (if b then kc_close (fa_ik fa) else ret tt) = kc_close c1) by (unfold c1; destruct b; reflexivity).
+  rewrite E1.
+  assert (K1 : forall cid, c1 = Some cid -> exists b0, nth_error kinds cid = Some b0) by (unfold c1; destruct b; [intros cid Ec; exists false; exact (Ki cid Ec) | intros cid Ec; discriminate Ec]).
+  assert (K2 : forall cid, fa_sk fa = Some cid -> exists b0, nth_error kinds cid = Some b0) by (intros cid Ec; exists true; exact (Ks cid Ec)).
+  assert (Lv1 : cache_live D c1) by (unfold c1; destruct b; [exact LvI | intros c Ec; discriminate Ec]).
+  assert (Sub1 : forall c, Dopt D c1 c -> D c \/ fa_ik fa = Some c).
+  { unfold c1. destruct b; [|intros c Dc; left; exact Dc]. destruct (fa_ik fa) as [ci|]; cbn [Dopt]; [|intros c Dc; left; exact Dc].
+    intros c [Dc|Eq]; [left; exact Dc | right; congruence]. }
+  assert (Ne : forall cs, fa_sk fa = Some cs -> ~ Dopt D c1 cs).
+  { intros cs Es Dc. destruct (Sub1 cs Dc) as [Dc0|Ei]; [exact (LvS cs Es Dc0)|]. pose proof (Ks cs Es). pose proof (Ki cs Ei). congruence. }
+  pose proof (kc_close_opt_L D H c1 Lv1 w L0) as Y1.
+  pose proof (hoare_snd (Iv kinds) (kc_close c1) w (kc_close_spec svc prod kinds c1 K1) HI0) as X1.
+  pose proof (qS_kc_close c1 w) as ES1. pose proof (qF_kc_close c1 w) as [EF1 _].
+  unfold bind.
+  destruct (kc_close c1 w) as [[er|u] w1]; cbn [snd] in *.
+  { assert (Fin1 : forall D1 H1, LInv D1 NoX H1 w1 -> (forall c, D c -> D1 c) -> (forall c, D1 c -> D c \/ fa_sk fa = Some c \/ fa_ik fa = Some c) -> HILD (f :: cf) w1).
+    { intros D1 H1 LL S1 S2. exists D1, kinds, H1. split; [split; assumption|].
+      apply (OW_close_factory cf D D1 w1 f fa); [|rewrite EF1; exact Ef | exact S1 | exact S2].
+      eapply OW_same; [exact ES1 | exact EF1 | rewrite <- (Iv_len kinds _ X1), <- (Iv_len kinds _ HI0); reflexivity | exact O0]. }
+    destruct Y1 as [Y1|[H' [_ Y1]]].
+    - apply (Fin1 D H Y1); [tauto | intros c Dc; left; exact Dc].
+    - apply (Fin1 (Dopt D c1) H' Y1).
+      + intros c Dc. unfold c1. destruct b; [|exact Dc]. destruct (fa_ik fa); cbn [Dopt]; [left; exact Dc | exact Dc].
+      + intros c Dc. destruct (Sub1 c Dc) as [Z|Z]; [left; exact Z | right; right; exact Z]. }
+  assert (Lv2 : cache_live (Dopt D c1) (fa_sk fa)) by (intros cs Es; exact (Ne cs Es)).
+  pose proof (kc_close_opt_L (Dopt D c1) H (fa_sk fa) Lv2 w1 Y1) as Y2.
+  pose proof (hoare_snd (Iv kinds) (kc_close (fa_sk fa)) w1 (kc_close_spec svc prod kinds (fa_sk fa) K2) X1) as X2.
+  pose proof (qS_kc_close (fa_sk fa) w1) as ES2. pose proof (qF_kc_close (fa_sk fa) w1) as [EF2 _].
+  assert (Fin2 : forall w2 D2 H2, LInv D2 NoX H2 w2 -> Iv kinds w2 -> w_sessions w2 = w_sessions w1 -> w_factories w2 = w_factories w1 ->
+            (forall c, D c -> D2 c) -> (forall c, D2 c -> D c \/ fa_sk fa = Some c \/ fa_ik fa = Some c) -> HILD (f :: cf) w2).
+  { intros w2 D2 H2 LL HI2 Es2 Ef2 S1 S2. exists D2, kinds, H2. split; [split; assumption|].
+    apply (OW_close_factory cf D D2 w2 f fa); [|rewrite Ef2, EF1; exact Ef | exact S1 | exact S2].
+    eapply OW_same; [rewrite Es2; exact ES1 | rewrite Ef2; exact EF1 | rewrite <- (Iv_len kinds _ HI2), <- (Iv_len kinds _ HI0); reflexivity | exact O0]. }
+  assert (Up1 : forall c, D c -> Dopt D c1 c).
+  { intros c Dc. unfold c1. destruct b; [|exact Dc]. destruct (fa_ik fa); cbn [Dopt]; [left; exact Dc | exact Dc]. }
+  assert (Up2 : forall c, Dopt D c1 c -> Dopt (Dopt D c1) (fa_sk fa) c) by (intros c Dc; destruct (fa_sk fa); cbn [Dopt]; [left; exact Dc | exact Dc]).
+  assert (Sub2 : forall c, Dopt (Dopt D c1) (fa_sk fa) c -> D c \/ fa_sk fa = Some c \/ fa_ik fa = Some c).
+  { intros c Dc. destruct (fa_sk fa) as [cs|] eqn:Es; cbn [Dopt] in Dc.
+    - destruct Dc as [Dc|Eq]; [destruct (Sub1 c Dc) as [Z|Z]; [left; exact Z | right; right; exact Z] | right; left; congruence].
+    - destruct (Sub1 c Dc) as [Z|Z]; [left; exact Z | right; right; exact Z]. }
+  destruct (kc_close (fa_sk fa) w1) as [[er|u2] w2]; cbn [snd] in *.
+  + destruct Y2 as [Y2|[H' [_ Y2]]].
+    * apply (Fin2 w2 (Dopt D c1) H Y2 X2 ES2 EF2 Up1). intros c Dc. destruct (Sub1 c Dc) as [Z|Z]; [left; exact Z | right; right; exact Z].
+    * apply (Fin2 w2 (Dopt (Dopt D c1) (fa_sk fa)) H' Y2 X2 ES2 EF2); [intros c Dc; exact (Up2 c (Up1 c Dc)) | exact Sub2].
+  + apply (Fin2 w2 (Dopt (Dopt D c1) (fa_sk fa)) H Y2 X2 ES2 EF2); [intros c Dc; exact (Up2 c (Up1 c Dc)) | exact Sub2].
+Qed.
+
+(* the session-cache part of SessionFactory.Close: every cached session leaves the cache *)
+Definition close_scache (f : nat) (fa : factory) : M unit :=
+  match fa_scache fa with
+  | Some c =>
+      now <- get_now ;;
+      match Generic.step str_eqb c now [] Generic.OClose with
+      | (c', _, ev) => set_scache f c' ;;; evictions ev
+      end
+  | None => ret tt
+  end.
+
+Lemma keeps_close_scache cf f fa : keeps cf (close_scache f fa).
+Proof. unfold close_scache, get_now. keeps_go. Qed.
+
+Lemma kcs_close_scache f fa : kcs (close_scache f fa).
+Proof.
+  unfold close_scache. destruct (fa_scache fa) as [c|]; [|apply kcs_ret].
+  apply kcs_bind; [apply kcs_of_qF; apply qF_get_now|]. intro now.
+  destruct (Generic.step str_eqb c now [] Generic.OClose) as [[c' r] ev].
+  apply kcs_bind; [apply kcs_set_scache | intros _; apply kcs_of_qF; apply qF_evictions].
+Qed.
+
+Lemma factory_close_run f w fa :
+  nth_error (w_factories w) f = Some fa ->
+  factory_close f w = (close_scache f fa ;;; (if use_shared_ik (fa_policy fa) then kc_close (fa_ik fa) else ret tt) ;;; kc_close (fa_sk fa)) w.
+Proof.
+  intro Ef. unfold factory_close, close_scache. cbv beta iota delta [bind get_factory gets ret fail]. rewrite Ef. reflexivity.
+Qed.
+
+Lemma factory_close_none f w : nth_error (w_factories w) f = None -> factory_close f w = (inl ErrPanic, w).
+Proof. intro Ef. cbv beta iota delta [factory_close bind get_factory gets ret fail]. rewrite Ef. reflexivity. Qed.
+
+Lemma keeps_factory_close cf f w : HILD cf w -> ~ In f cf -> HILD (f :: cf) (snd (factory_close f w)).
+Proof.
+  intros Hw NI. destruct (nth_error (w_factories w) f) as [fa|] eqn:Ef.
+  2: { rewrite (factory_close_none f w Ef). cbn [snd]. exact (HILD_cons cf f w Hw). }
+  rewrite (factory_close_run f w fa Ef). unfold bind at 1.
+  pose proof (keeps_close_scache cf f fa w Hw) as K1. pose proof (kcs_close_scache f fa w f fa Ef) as [fa1 [Ef1 [Es1 Ei1]]].
+  destruct (close_scache f fa w) as [[er|u] w1]; cbn [snd] in *.
+  - exact (HILD_cons cf f w1 K1).
+  - apply (keeps_close_caches cf f (use_shared_ik (fa_policy fa)) (fa_ik fa) (fa_sk fa) w1 K1 NI). exists fa1. repeat split; assumption.
+Qed.
+
+Lemma HILD_begin cf fs w : HILD cf w -> HILD cf (begin_op fs w).
+Proof.
+  intros [D [kinds [H [HIL0 O]]]]. exists D, kinds, H. split; [exact (IL_begin_op D svc prod kinds H fs w HIL0) | eapply OW_same; [..|exact O]; reflexivity].
+Qed.
+
 Theorem hstepD_inv cf h o : benignD o -> live_op cf (h_world h) o -> HILD cf (h_world h) -> HILD (cf_after cf o) (h_world (snd (hstep h o))).
 Proof.
-  intros B LO [D [kinds [H [HIL0 [NSc O]]]]].
+  intros B LO HL.
   destruct o; cbn [benignD] in B; try contradiction; cbn [hstep live_op cf_after] in *.
   - (* new factory *)
-    destruct B as [-> [-> [-> [PO NS]]]]. pose proof (IL_begin_op D svc prod kinds H [] _ HIL0) as [HI0 L0].
-    pose proof (OW_begin cf D [] _ O) as O0. assert (NS0 : no_scache (begin_op [] (h_world h))) by exact NSc.
-    set (w0 := begin_op [] (h_world h)) in *. clearbody w0.
-    pose proof (new_factory_spec svc prod kinds p PO _ HI0) as X.
-    pose proof (new_factory_L D svc prod H p PO NS w0 (conj L0 NS0)) as Y.
-    pose proof (new_factory_shape p svc prod None w0) as [ES [LE [fa [EF FR]]]].
-    destruct (new_factory p svc prod None w0) as [[er|a] w']; cbn [snd h_world] in *; [contradiction|].
-    destruct X as [kinds' HI']. destruct Y as [L' N']. exists D, kinds', H. split; [split; assumption|]. split; [exact N'|].
-    destruct O0 as [A Bs C D1 D2 E Fu G]. constructor.
-    + intros f fa' Hf NF. rewrite EF in Hf. apply nth_error_snoc in Hf as [[Hf _]|[-> _]]; [exact (A f fa' Hf NF)|].
-      split; intros c Ec Dc; pose proof (C c Dc); [pose proof (FR c (or_introl Ec)) | pose proof (FR c (or_intror Ec))]; lia.
-    + intros s x. rewrite ES. apply Bs.
-    + intros c Dc. pose proof (C c Dc). lia.
-    + intros s x cid. rewrite ES. intros Hs Hi. pose proof (D1 s x cid Hs Hi). lia.
-    + intros f fa' cid Hf Hc. rewrite EF in Hf. apply nth_error_snoc in Hf as [[Hf _]|[-> _]]; [pose proof (D2 f fa' cid Hf Hc); lia | pose proof (FR cid Hc); lia].
-    + intros s x cid Hs Ho Hi. rewrite ES in Hs. destruct (E s x cid Hs Ho Hi) as [P Q]. split; [intros s' x' Hs'; rewrite ES in Hs'; exact (P s' x' Hs')|].
-      intros f fa' Hf. rewrite EF in Hf. apply nth_error_snoc in Hf as [[Hf _]|[-> _]]; [exact (Q f fa' Hf)|].
-      pose proof (D1 s x cid Hs Hi). split; intro Ec; [pose proof (FR cid (or_introl Ec)) | pose proof (FR cid (or_intror Ec))]; lia.
-    + intros f1 fa1 f2 fa2 cid Hf1 Hf2 Hc1 Hc2. rewrite EF in Hf1, Hf2.
-      apply nth_error_snoc in Hf1 as [[Hf1 Lt1]|[-> Eq1]]; apply nth_error_snoc in Hf2 as [[Hf2 Lt2]|[-> Eq2]].
-      * exact (Fu f1 fa1 f2 fa2 cid Hf1 Hf2 Hc1 Hc2).
-      * pose proof (D2 f1 fa1 cid Hf1 Hc1). pose proof (FR cid Hc2). lia.
-      * pose proof (D2 f2 fa2 cid Hf2 Hc2). pose proof (FR cid Hc1). lia.
-      * congruence.
-    + intros s x Hs Ho. rewrite ES in Hs. destruct (G s x Hs Ho) as [fa' [Hf' Ei]]. exists fa'. split; [|exact Ei].
-      rewrite EF. rewrite nth_error_app1; [exact Hf' | apply nth_error_Some; congruence].
+    destruct B as [-> [-> [-> PO]]]. pose proof (keeps_new_factory cf p PO _ (HILD_begin cf [] _ HL)) as X.
+    destruct (new_factory p svc prod None (begin_op [] (h_world h))) as [r w']. exact X.
   - (* get session *)
-    pose proof (IL_begin_op D svc prod kinds H [] _ HIL0) as HIL1. pose proof (OW_begin cf D [] _ O) as O0. set (w0 := begin_op [] (h_world h)) in *.
-    assert (NS0 : no_scache w0) by exact NSc. clearbody w0.
-    destruct (factory_get_session_run f id w0 NS0) as [R|[R|[fa [Ef R]]]]; rewrite R; cbn [snd h_world].
-    + exists D, kinds, H. split; [exact HIL1 | split; assumption].
-    + exists D, kinds, H. split; [exact HIL1 | split; assumption].
-    + pose proof (new_session_spec svc prod kinds f id false w0 (proj1 HIL1)) as X.
-      pose proof (new_session_L D svc prod kinds H f id false w0 (conj HIL1 NS0)) as Y.
-      pose proof (new_session_shape f id fa w0 Ef) as [EF [LE [x [ES [C1 [T1 [Fx Sh]]]]]]].
-      assert (Fin : forall w', (exists kinds', Iv kinds' w') -> LInv D NoX H w' /\ no_scache w' ->
-                w_factories w' = w_factories w0 -> (length (w_caches w0) <= length (w_caches w'))%nat ->
-                w_sessions w' = w_sessions w0 ++ [x] ->
-                ((ss_own_ik x = false /\ ss_ik x = fa_ik fa /\ length (w_caches w') = length (w_caches w0)) \/
-                 (ss_own_ik x = true /\ ss_ik x = Some (length (w_caches w0)) /\ length (w_caches w') = S (length (w_caches w0))) \/
-                 (ss_own_ik x = true /\ ss_ik x = None /\ length (w_caches w') = length (w_caches w0))) -> HILD cf w').
-      { intros w' [kinds' HI'] [L' N'] EF' LE' ES' Sh'. exists D, kinds', H. split; [split; assumption|]. split; [exact N'|].
-        destruct O0 as [A Bs C D1 D2 E Fu G]. constructor.
-        - intros f0 fa0. rewrite EF'. apply A.
-        - intros s0 y Hy. rewrite ES' in Hy. apply nth_error_snoc in Hy as [[Hy _]|[-> _]]; [exact (Bs s0 y Hy)|]. split; [exact C1|]. intros _ Z.
-          destruct Sh' as [[Eo [Ei _]]|[[_ [Ei _]]|[_ [Ei _]]]]; rewrite Ei.
-          + destruct Z as [Z|Z]; [congruence|]. rewrite Fx in Z. exact (proj2 (A f fa Ef Z)).
-          + intros c Ec Dc. assert (Ecc : c = length (w_caches w0)) by congruence. rewrite Ecc in Dc. pose proof (C _ Dc) as Q. revert Q. clear. intro Q. lia.
-          + intros c Ec. discriminate Ec.
-        - intros c Dc. pose proof (C c Dc). lia.
-        - intros s0 y cid Hy Hi. rewrite ES' in Hy. apply nth_error_snoc in Hy as [[Hy _]|[-> _]]; [pose proof (D1 s0 y cid Hy Hi); lia|].
-          destruct Sh' as [[_ [Ei _]]|[[_ [Ei El]]|[_ [Ei _]]]]; rewrite Ei in Hi.
-          + pose proof (D2 f fa cid Ef (or_intror Hi)). lia.
-          + inversion Hi; subst cid. lia.
-          + discriminate Hi.
-        - intros f0 fa0 cid Hf Hc. rewrite EF' in Hf. pose proof (D2 f0 fa0 cid Hf Hc). lia.
-        - intros s0 y cid Hy Ho Hi. rewrite ES' in Hy. apply nth_error_snoc in Hy as [[Hy Lt]|[-> Eq]].
-          + destruct (E s0 y cid Hy Ho Hi) as [P Q]. split; [|intros f0 fa0 Hf; rewrite EF' in Hf; exact (Q f0 fa0 Hf)].
-            intros s' y' Hy' Hi'. rewrite ES' in Hy'. apply nth_error_snoc in Hy' as [[Hy' _]|[-> _]]; [exact (P s' y' Hy' Hi')|]. exfalso.
-            pose proof (D1 s0 y cid Hy Hi) as Al.
-            destruct Sh' as [[_ [Ei _]]|[[_ [Ei _]]|[_ [Ei _]]]]; rewrite Ei in Hi'.
-            * exact (proj2 (Q f fa Ef) Hi').
-            * inversion Hi'; subst cid. lia.
-            * discriminate Hi'.
-          + destruct Sh' as [[Eo _]|[[_ [Ei _]]|[_ [Ei _]]]]; [congruence| |congruence]. rewrite Ei in Hi. inversion Hi; subst cid. split.
-            * intros s' y' Hy' Hi'. rewrite ES' in Hy'. apply nth_error_snoc in Hy' as [[Hy' _]|[_ Eq']]; [pose proof (D1 s' y' _ Hy' Hi'); lia | congruence].
-            * intros f0 fa0 Hf. rewrite EF' in Hf. split; intro Ec; [pose proof (D2 f0 fa0 _ Hf (or_introl Ec)) | pose proof (D2 f0 fa0 _ Hf (or_intror Ec))]; lia.
-        - intros f1 fa1 f2 fa2 cid. rewrite EF'. apply Fu.
-        - intros s0 y Hy Ho. rewrite ES' in Hy. rewrite EF'. apply nth_error_snoc in Hy as [[Hy _]|[-> _]]; [exact (G s0 y Hy Ho)|].
-          destruct Sh' as [[_ [Ei _]]|[[Eo _]|[Eo _]]]; [|congruence|congruence]. exists fa. rewrite Fx. split; assumption. }
-      destruct (new_session f id false w0) as [[er|a] w']; cbn [snd h_world] in *; apply Fin; assumption.
+    pose proof (keeps_factory_get_session cf f id _ (HILD_begin cf [] _ HL)) as X.
+    destruct (factory_get_session f id (begin_op [] (h_world h))) as [r w']. exact X.
   - (* encrypt *)
-    pose proof (IL_begin_op D svc prod kinds H faults _ HIL0) as HIL1. pose proof (OW_begin cf D faults _ O) as O0.
+    destruct (HILD_begin cf faults _ HL) as [D [kinds [H [HIL1 O0]]]].
     assert (SL : sess_live D s (begin_op faults (h_world h))) by (apply (OW_sess_live cf); [exact O0 | exact LO]).
     pose proof (encrypt_op_IL D svc prod kinds H s payload _ (conj HIL1 SL)) as X.
     assert (QF : qF (e <- session_env s;; encrypt_payload e (PPayload payload))) by (apply qF_bind; [apply qF_session_env | intro; apply qF_encrypt_payload]).
     assert (QS : qS (e <- session_env s;; encrypt_payload e (PPayload payload))) by (apply qS_bind; [apply qS_session_env | intro; apply qS_encrypt_payload]).
-    pose proof (no_scache_qF _ (begin_op faults (h_world h)) QF NSc) as N.
     pose proof (QS (begin_op faults (h_world h))) as ES. pose proof (proj1 (QF (begin_op faults (h_world h)))) as EF.
     pose proof (Iv_len kinds _ (proj1 HIL1)) as Len0.
     destruct ((e <- session_env s;; encrypt_payload e (PPayload payload)) (begin_op faults (h_world h))) as [[er|d] w']; cbn [snd h_world] in *;
-      destruct X as [HI' [H' [_ L']]]; exists D, kinds, H'; (split; [split; assumption|]); (split; [exact N|]);
+      destruct X as [HI' [H' [_ L']]]; exists D, kinds, H'; (split; [split; assumption|]);
       (eapply OW_same; [exact ES | exact EF | rewrite <- (Iv_len kinds _ HI'), <- Len0; reflexivity | exact O0]).
   - (* decrypt *)
-    destruct (nth_error (h_recs h) rec) as [r0|]; [|cbn [snd h_world]; exists D, kinds, H; split; [exact HIL0 | split; assumption]].
+    destruct (nth_error (h_recs h) rec) as [r0|]; [|cbn [snd h_world]; exact HL].
     set (r1 := fold_left (apply_mut (h_recs h)) muts r0).
-    pose proof (IL_begin_op D svc prod kinds H faults _ HIL0) as HIL1. pose proof (OW_begin cf D faults _ O) as O0.
+    destruct (HILD_begin cf faults _ HL) as [D [kinds [H [HIL1 O0]]]].
     assert (SL : sess_live D s (begin_op faults (h_world h))) by (apply (OW_sess_live cf); [exact O0 | exact LO]).
     pose proof (decrypt_op_IL D svc prod kinds H s r1 _ (conj HIL1 SL)) as X.
     assert (QF : qF (e <- session_env s;; decrypt_data_row_record e r1)) by (apply qF_bind; [apply qF_session_env | intro; apply qF_decrypt_data_row_record]).
     assert (QS : qS (e <- session_env s;; decrypt_data_row_record e r1)) by (apply qS_bind; [apply qS_session_env | intro; apply qS_decrypt_data_row_record]).
-    pose proof (no_scache_qF _ (begin_op faults (h_world h)) QF NSc) as N.
     pose proof (QS (begin_op faults (h_world h))) as ES. pose proof (proj1 (QF (begin_op faults (h_world h)))) as EF.
     pose proof (Iv_len kinds _ (proj1 HIL1)) as Len0.
     destruct ((e <- session_env s;; decrypt_data_row_record e r1) (begin_op faults (h_world h))) as [[er|d] w']; cbn [snd h_world] in *;
-      destruct X as [HI' [H' [_ L']]]; exists D, kinds, H'; (split; [split; assumption|]); (split; [exact N|]);
+      destruct X as [HI' [H' [_ L']]]; exists D, kinds, H'; (split; [split; assumption|]);
       (eapply OW_same; [exact ES | exact EF | rewrite <- (Iv_len kinds _ HI'), <- Len0; reflexivity | exact O0]).
   - (* Session.Close *)
-    pose proof (IL_begin_op D svc prod kinds H [] _ HIL0) as [HI0 L0]. pose proof (OW_begin cf D [] _ O) as O0.
-    assert (LO0 : untorn (begin_op [] (h_world h)) s) by exact LO.
-    assert (NS0 : no_scache (begin_op [] (h_world h))) by exact NSc.
-    set (w0 := begin_op [] (h_world h)) in *. clearbody w0.
-    pose proof (session_close_spec svc prod kinds s w0 HI0) as X.
-    destruct (nth_error (w_sessions w0) s) as [x|] eqn:Es.
-    2: { rewrite (session_close_none s w0 Es). cbn [snd h_world]. exists D, kinds, H. split; [split; assumption | split; assumption]. }
-    destruct (ow_sess cf D w0 O0 s x Es) as [C1 Lv]. pose proof (LO0 x Es) as T0.
-    rewrite (session_close_runD s w0 x Es C1) in X |- *.
-    set (w1 := with_sessions (set_nth s (torn_copy x) (w_sessions w0)) w0) in *.
-    assert (L1 : LInv D NoX H w1) by (eapply LInv_bookkeeping; [..|exact L0]; reflexivity).
-    assert (O1 : OW cf D w1) by exact (OW_torn cf D w0 s x Es O0).
-    assert (NS1 : no_scache w1) by exact NS0.
-    assert (Es1 : nth_error (w_sessions w1) s = Some (torn_copy x)) by (unfold w1; cbn; exact (nth_error_set_nth_same _ _ _ _ Es)).
-    destruct (ss_own_ik x) eqn:Ho.
-    2: { cbn [ret snd h_world] in *. exists D, kinds, H. split; [split; assumption | split; assumption]. }
-    destruct (ss_ik x) as [cid|] eqn:Ei.
-    2: { cbn [kc_close ret snd h_world] in *. exists D, kinds, H. split; [split; assumption | split; assumption]. }
-    assert (NDc : ~ D cid) by exact (Lv T0 (or_introl eq_refl) cid eq_refl).
-    pose proof (kc_close_L D H cid NDc w1 L1) as Y.
-    pose proof (qS_kc_close (Some cid) w1) as ES. pose proof (qF_kc_close (Some cid) w1) as [EF _].
-    pose proof (no_scache_qF _ w1 (qF_kc_close (Some cid)) NS1) as N2.
-    assert (Len1 : length kinds = length (w_caches w1)) by exact (Iv_len kinds w0 HI0).
-    destruct (kc_close (Some cid) w1) as [[er|u] w2]; cbn [snd h_world] in *.
-    + assert (O2 : OW cf D w2) by (eapply OW_same; [exact ES | exact EF | rewrite <- (Iv_len kinds _ X), <- Len1; reflexivity | exact O1]).
-      destruct Y as [Y|[H' [_ Y]]].
-      * exists D, kinds, H. split; [split; assumption | split; assumption].
-      * exists (Dplus D cid), kinds, H'. split; [split; assumption|]. split; [exact N2|].
-        apply (OW_kill cf D w2 s (torn_copy x) cid O2); [rewrite ES; exact Es1 | reflexivity | exact Ho | exact Ei].
-    + assert (O2 : OW cf D w2) by (eapply OW_same; [exact ES | exact EF | rewrite <- (Iv_len kinds _ X), <- Len1; reflexivity | exact O1]).
-      exists (Dplus D cid), kinds, H. split; [split; assumption|]. split; [exact N2|].
-      apply (OW_kill cf D w2 s (torn_copy x) cid O2); [rewrite ES; exact Es1 | reflexivity | exact Ho | exact Ei].
-  - (* SessionFactory.Close: the shared intermediate-key cache (if any), then the system-key cache *)
-    pose proof (IL_begin_op D svc prod kinds H [] _ HIL0) as [HI0 L0]. pose proof (OW_begin cf D [] _ O) as O0.
-    assert (NS0 : no_scache (begin_op [] (h_world h))) by exact NSc.
-    set (w0 := begin_op [] (h_world h)) in *. clearbody w0.
-    pose proof (factory_close_spec svc prod kinds f w0 HI0) as X.
-    destruct (nth_error (w_factories w0) f) as [fa|] eqn:Ef.
-    2: { rewrite (factory_close_none f w0 Ef). cbn [snd h_world]. exists D, kinds, H. split; [split; assumption|]. split; [exact NS0|].
-         destruct O0 as [A Bs C D1 D2 E Fu G]. constructor; try assumption.
-         - intros f' fa' Hf' NI. apply (A f' fa' Hf'). intro W. apply NI. right. exact W.
-         - intros s x Hs. destruct (Bs s x Hs) as [P Q]. split; [exact P|]. intros T [Z|Z]; [exact (Q T (or_introl Z)) | apply (Q T); right; intro W; apply Z; right; exact W]. }
-    rewrite (factory_close_runD f w0 fa Ef (NS0 f fa Ef)) in X |- *.
-    destruct (ow_fact cf D w0 O0 f fa Ef LO) as [LvS LvI].
-    set (c1 := if use_shared_ik (fa_policy fa) then fa_ik fa else None).
-    assert (E1 : (if use_shared_ik (fa_policy fa) then kc_close (fa_ik fa) else ret tt) = kc_close c1) by (unfold c1; destruct (use_shared_ik (fa_policy fa)); reflexivity).
-    rewrite E1 in X |- *.
-    assert (Lv1 : cache_live D c1) by (unfold c1; destruct (use_shared_ik (fa_policy fa)); [exact LvI | intros c Ec; discriminate Ec]).
-    assert (Sub1 : forall c, Dopt D c1 c -> D c \/ fa_ik fa = Some c).
-    { unfold c1. destruct (use_shared_ik (fa_policy fa)); [|intros c Dc; left; exact Dc]. destruct (fa_ik fa) as [ci|]; cbn [Dopt]; [|intros c Dc; left; exact Dc].
-      intros c [Dc|Eq]; [left; exact Dc | right; congruence]. }
-    (* the two caches of a factory are different caches *)
-    assert (Ne : forall cs, fa_sk fa = Some cs -> ~ Dopt D c1 cs).
-    { intros cs Es Dc. destruct (Sub1 cs Dc) as [Dc0|Ei]; [exact (LvS cs Es Dc0)|].
-      destruct HI0 as [_ [_ _ CF _]]. destruct (CF f fa Ef) as [_ [_ [_ [Ks [Ki _]]]]]. pose proof (Ks cs Es). pose proof (Ki cs Ei). congruence. }
-    pose proof (kc_close_opt_L D H c1 Lv1 w0 L0) as Y1.
-    pose proof (qS_kc_close c1 w0) as ES1. pose proof (qF_kc_close c1 w0) as [EF1 _].
-    pose proof (no_scache_qF _ w0 (qF_kc_close c1) NS0) as N1.
-    unfold bind in X |- *.
-    destruct (kc_close c1 w0) as [[er|u] w1]; cbn [snd h_world] in *.
-    { (* the first close failed: nothing further is closed *)
-      assert (Fin1 : forall D1 H1, LInv D1 NoX H1 w1 -> (forall c, D c -> D1 c) -> (forall c, D1 c -> D c \/ fa_sk fa = Some c \/ fa_ik fa = Some c) -> HILD (f :: cf) w1).
-      { intros D1 H1 LL S1 S2. exists D1, kinds, H1. split; [split; assumption|]. split; [exact N1|].
-        apply (OW_close_factory cf D D1 w1 f fa); [|rewrite EF1; exact Ef | exact S1 | exact S2].
-        eapply OW_same; [exact ES1 | exact EF1 | rewrite <- (Iv_len kinds _ X), <- (Iv_len kinds _ HI0); reflexivity | exact O0]. }
-      destruct Y1 as [Y1|[H' [_ Y1]]].
-      - apply (Fin1 D H Y1); [tauto | intros c Dc; left; exact Dc].
-      - apply (Fin1 (Dopt D c1) H' Y1).
-        + intros c Dc. unfold c1. destruct (use_shared_ik (fa_policy fa)); [|exact Dc]. destruct (fa_ik fa); cbn [Dopt]; [left; exact Dc | exact Dc].
-        + intros c Dc. destruct (Sub1 c Dc) as [Z|Z]; [left; exact Z | right; right; exact Z]. }
-    assert (Lv2 : cache_live (Dopt D c1) (fa_sk fa)) by (intros cs Es; exact (Ne cs Es)).
-    pose proof (kc_close_opt_L (Dopt D c1) H (fa_sk fa) Lv2 w1 Y1) as Y2.
-    pose proof (qS_kc_close (fa_sk fa) w1) as ES2. pose proof (qF_kc_close (fa_sk fa) w1) as [EF2 _].
-    pose proof (no_scache_qF _ w1 (qF_kc_close (fa_sk fa)) N1) as N2.
-    assert (Fin2 : forall w2 D2 H2, LInv D2 NoX H2 w2 -> Iv kinds w2 -> no_scache w2 -> w_sessions w2 = w_sessions w1 -> w_factories w2 = w_factories w1 ->
-              (forall c, D c -> D2 c) -> (forall c, D2 c -> D c \/ fa_sk fa = Some c \/ fa_ik fa = Some c) -> HILD (f :: cf) w2).
-    { intros w2 D2 H2 LL HI2 NN Es2 Ef2 S1 S2. exists D2, kinds, H2. split; [split; assumption|]. split; [exact NN|].
-      apply (OW_close_factory cf D D2 w2 f fa); [|rewrite Ef2, EF1; exact Ef | exact S1 | exact S2].
-      eapply OW_same; [rewrite Es2; exact ES1 | rewrite Ef2; exact EF1 | rewrite <- (Iv_len kinds _ HI2), <- (Iv_len kinds _ HI0); reflexivity | exact O0]. }
-    assert (Up1 : forall c, D c -> Dopt D c1 c).
-    { intros c Dc. unfold c1. destruct (use_shared_ik (fa_policy fa)); [|exact Dc]. destruct (fa_ik fa); cbn [Dopt]; [left; exact Dc | exact Dc]. }
-    assert (Up2 : forall c, Dopt D c1 c -> Dopt (Dopt D c1) (fa_sk fa) c) by (intros c Dc; destruct (fa_sk fa); cbn [Dopt]; [left; exact Dc | exact Dc]).
-    assert (Sub2 : forall c, Dopt (Dopt D c1) (fa_sk fa) c -> D c \/ fa_sk fa = Some c \/ fa_ik fa = Some c).
-    { intros c Dc. destruct (fa_sk fa) as [cs|] eqn:Es; cbn [Dopt] in Dc.
-      - destruct Dc as [Dc|Eq]; [destruct (Sub1 c Dc) as [Z|Z]; [left; exact Z | right; right; exact Z] | right; left; congruence].
-      - destruct (Sub1 c Dc) as [Z|Z]; [left; exact Z | right; right; exact Z]. }
-    destruct (kc_close (fa_sk fa) w1) as [[er|u2] w2]; cbn [snd h_world] in *.
-    + destruct Y2 as [Y2|[H' [_ Y2]]].
-      * apply (Fin2 w2 (Dopt D c1) H Y2 X N2 ES2 EF2 Up1). intros c Dc. destruct (Sub1 c Dc) as [Z|Z]; [left; exact Z | right; right; exact Z].
-      * apply (Fin2 w2 (Dopt (Dopt D c1) (fa_sk fa)) H' Y2 X N2 ES2 EF2); [intros c Dc; exact (Up2 c (Up1 c Dc)) | exact Sub2].
-    + apply (Fin2 w2 (Dopt (Dopt D c1) (fa_sk fa)) H Y2 X N2 ES2 EF2); [intros c Dc; exact (Up2 c (Up1 c Dc)) | exact Sub2].
+    pose proof (keeps_session_close cf s _ (HILD_begin cf [] _ HL) LO) as X.
+    destruct (session_close s (begin_op [] (h_world h))) as [r w']. exact X.
+  - (* SessionFactory.Close *)
+    pose proof (keeps_factory_close cf f _ (HILD_begin cf [] _ HL) LO) as X.
+    destruct (factory_close f (begin_op [] (h_world h))) as [r w']. exact X.
   - (* clock *)
-    cbn [snd h_world]. destruct HIL0 as [HI L]. exists D, kinds, H.
-    split; [split; [eapply Iv_ext; [..|exact HI]; reflexivity | eapply LInv_bookkeeping; [..|exact L]; reflexivity]|]. split; [exact NSc|]. eapply OW_same; [..|exact O]; reflexivity.
+    cbn [snd h_world]. destruct HL as [D [kinds [H [[HI L] O]]]]. exists D, kinds, H.
+    split; [split; [eapply Iv_ext; [..|exact HI]; reflexivity | eapply LInv_bookkeeping; [..|exact L]; reflexivity]|]. eapply OW_same; [..|exact O]; reflexivity.
   - (* revocation *)
-    cbn [snd h_world]. destruct HIL0 as [HI L]. exists D, kinds, H. split; [|split; [exact NSc | eapply OW_same; [..|exact O]; reflexivity]].
+    cbn [snd h_world]. destruct HL as [D [kinds [H [[HI L] O]]]]. exists D, kinds, H. split; [|eapply OW_same; [..|exact O]; reflexivity].
     split; [apply Iv_store_flagged; [apply revoke_flagged | exact HI] | eapply LInv_bookkeeping; [..|exact L]; reflexivity].
 Qed.
 
-(* histories: every operation is one the theorem covers, none addresses a session after its Close or after its factory's Close, and
-   nothing is closed twice; cf accumulates the factories closed so far *)
 Fixpoint okrun (cf : list nat) (h : hstate) (ops : list hop) : Prop :=
   match ops with
   | [] => True
@@ -697,7 +881,7 @@ Qed.
 
 Lemma HILD_init t0 : HILD [] (h_world (hinit t0)).
 Proof.
-  destruct (HIL_init (fun _ => False) svc prod t0) as [kinds [H [HI N]]]. exists (fun _ => False), kinds, H. split; [exact HI|]. split; [exact N|].
+  destruct (HIL_init (fun _ => False) svc prod t0) as [kinds [H [HI N]]]. exists (fun _ => False), kinds, H. split; [exact HI|].
   constructor; cbn.
   - intros f fa Hf. destruct f; discriminate Hf.
   - intros s x Hs. destruct s; discriminate Hs.
@@ -724,7 +908,7 @@ Theorem open_decrypt_of_recorded cf h s x j d n :
   nth_error (h_recs h) j = Some d -> genuine (w_store (h_world h)) (p_id (ss_part x)) d (PPayload n) ->
   fst (fst (hstep h (HDecrypt s j [] []))) = ODec (Some n).
 Proof.
-  intros [D [kinds [H [HIL0 [_ O]]]]] NZ Hs T NF Hj G. cbn [hstep]. rewrite Hj. cbn [fold_left].
+  intros [D [kinds [H [HIL0 O]]]] NZ Hs T NF Hj G. cbn [hstep]. rewrite Hj. cbn [fold_left].
   assert (Op : open_sess cf (h_world h) s) by (intros x' Hx'; rewrite Hs in Hx'; inversion Hx'; subst x'; split; assumption).
   pose proof (genuine_decrypts_live D svc prod kinds H (h_world h) s x d (PPayload n) HIL0 (OW_sess_live cf D _ s O Op) NZ Hs G) as X.
   destruct ((e <- session_env s;; decrypt_data_row_record e d) (begin_op [] (h_world h))) as [r w']. cbn [fst] in *. rewrite X. reflexivity.
@@ -780,10 +964,66 @@ Theorem open_sessions_cached_keys_open cf w : HILD cf w ->
     nth_error (w_factories w) (ss_factory x) = Some fa ->
     ss_ik x = Some cid \/ fa_sk fa = Some cid -> nth_error (w_caches w) cid = Some kc -> b_abs (kc_backing kc) ks = Some e -> open_k w (ce_key e).
 Proof.
-  intros [D [kinds [H [[_ L] [_ O]]]]] s x fa cid kc ks e Hs T NF Hf Hc Hk Hb.
+  intros [D [kinds [H [[_ L] O]]]] s x fa cid kc ks e Hs T NF Hf Hc Hk Hb.
   assert (ND : ~ D cid).
-  { destruct Hc as [Hc|Hc]; [exact (proj2 (ow_sess cf D w O s x Hs) T (or_intror NF) cid Hc) | exact (proj1 (ow_fact cf D w O _ fa Hf NF) cid Hc)]. }
+  { destruct Hc as [Hc|Hc]; [exact (ow_sess cf D w O s x Hs T (or_intror NF) cid Hc) | exact (proj1 (ow_fact cf D w O _ fa Hf NF) cid Hc)]. }
   apply (l_cached _ _ _ _ L (ce_key e)). exists cid, ks, e. split; [split; [exact ND | exists kc; split; assumption]|]. split; [intros []|reflexivity].
+Qed.
+
+(* a decision procedure for okrun, so that concrete histories are checked by computation *)
+Definition cap_okb (pol : cachepol) : bool := match cp_kind pol with None => true | Some _ => 1 <=? cp_cap pol end.
+Definition benignDb (o : hop) : bool :=
+  match o with
+  | HNewFactory p s0 pr suf => str_eqb s0 svc && str_eqb pr prod && (match suf with None => true | Some _ => false end) && cap_okb (p_sk_pol p) && cap_okb (p_ik_pol p)
+  | HCloseSession _ | HCloseFactory _ | HGetSession _ _ | HEncrypt _ _ _ | HDecrypt _ _ _ _ | HAdvance _ | HRevoke _ _ => true
+  | _ => false
+  end.
+Definition inb (f : nat) (cf : list nat) : bool := existsb (Nat.eqb f) cf.
+Definition open_sessb (cf : list nat) (w : world) (s0 : nat) : bool :=
+  match nth_error (w_sessions w) s0 with Some x => negb (ss_torn x) && negb (inb (ss_factory x) cf) | None => true end.
+Definition untornb (w : world) (s0 : nat) : bool := match nth_error (w_sessions w) s0 with Some x => negb (ss_torn x) | None => true end.
+Definition live_opb (cf : list nat) (w : world) (o : hop) : bool :=
+  match o with
+  | HEncrypt s0 _ _ | HDecrypt s0 _ _ _ => open_sessb cf w s0
+  | HCloseSession s0 => untornb w s0
+  | HCloseFactory f => negb (inb f cf)
+  | _ => true
+  end.
+Fixpoint okrunb (cf : list nat) (h : hstate) (ops : list hop) : bool :=
+  match ops with
+  | [] => true
+  | o :: r => benignDb o && live_opb cf (h_world h) o && okrunb (cf_after cf o) (snd (hstep h o)) r
+  end.
+
+Lemma inb_In f cf : inb f cf = false -> ~ In f cf.
+Proof. unfold inb. intros E HI. assert (X : existsb (Nat.eqb f) cf = true) by (apply existsb_exists; exists f; split; [exact HI | apply Nat.eqb_refl]). congruence. Qed.
+
+Lemma cap_okb_ok pol : cap_okb pol = true -> Coherent.cap_ok pol.
+Proof. unfold cap_okb, Coherent.cap_ok. destruct (cp_kind pol); [intro E; apply Z.leb_le; exact E | intros _; exact I]. Qed.
+
+Lemma benignDb_ok o : benignDb o = true -> benignD o.
+Proof.
+  destruct o; cbn [benignDb benignD]; try discriminate; try (intros _; exact I).
+  intro E. repeat (apply andb_prop in E as [E ?]). destruct suffix; [discriminate|].
+  split; [apply str_eqb_eq; assumption|]. split; [apply str_eqb_eq; assumption|]. split; [reflexivity|]. split; apply cap_okb_ok; assumption.
+Qed.
+
+Lemma live_opb_ok cf w o : live_opb cf w o = true -> live_op cf w o.
+Proof.
+  assert (OS : forall s0, open_sessb cf w s0 = true -> open_sess cf w s0).
+  { intros s0 E x Hx. unfold open_sessb in E. rewrite Hx in E. apply andb_prop in E as [E1 E2]. split; [destruct (ss_torn x); [discriminate E1 | reflexivity] | apply inb_In; destruct (inb (ss_factory x) cf); [discriminate E2 | reflexivity]]. }
+  destruct o; cbn [live_opb live_op]; try (intros _; exact I).
+  - apply OS.
+  - apply OS.
+  - intros E x Hx. unfold untornb in E. rewrite Hx in E. destruct (ss_torn x); [discriminate E | reflexivity].
+  - intro E. apply inb_In. destruct (inb f cf); [discriminate E | reflexivity].
+Qed.
+
+Lemma okrunb_ok ops : forall cf h, okrunb cf h ops = true -> okrun cf h ops.
+Proof.
+  induction ops as [|o ops IH]; intros cf h E; cbn [okrunb okrun] in *; [exact I|].
+  apply andb_prop in E as [E E3]. apply andb_prop in E as [E1 E2].
+  split; [exact (benignDb_ok o E1)|]. split; [exact (live_opb_ok cf (h_world h) o E2) | exact (IH _ _ E3)].
 Qed.
 
 End CloseD.
@@ -804,8 +1044,28 @@ Example own_closing_nonvacuous :
   fst (fst (hstep h (HDecrypt 2 0 [] []))) = ODec (Some 5%nat) /\ fst (fst (hstep h (HDecrypt 2 1 [] []))) = ODec (Some 6%nat) /\
   fst (fst (hstep h (HDecrypt 0 0 [] []))) <> ODec (Some 5%nat).
 Proof.
-  split; [|split; [reflexivity|]; split; [vm_compute; reflexivity|]; split; [vm_compute; reflexivity|]; split; [vm_compute; reflexivity | vm_compute; discriminate]].
-  cbn [okrun own_closing_ops benignD live_op cf_after]. repeat split; try exact I; try (vm_compute; tauto);
-    try (intros x Hx; vm_compute in Hx; inversion Hx; try reflexivity; try (split; [reflexivity | cbn; tauto])); try (cbn; tauto).
-  all: match goal with Hx : nth_error _ _ = Some _ |- _ => vm_compute in Hx; inversion Hx; subst; cbn; try reflexivity; try (intros [Eq|[]]; discriminate Eq) end.
+  split; [apply okrunb_ok; vm_compute; reflexivity|]. split; [reflexivity|]. split; [vm_compute; reflexivity|]. split; [vm_compute; reflexivity|].
+  split; [vm_compute; reflexivity | vm_compute; discriminate].
+Qed.
+
+(* non-vacuity with the SESSION CACHE (capacity 1): session 0 of partition p is handed out, partition q pushes it out of the session cache
+   while it is still held (it keeps working), its holder closes it (now the shared session's underlying encryption and its key cache are
+   destroyed), p is requested again (a new session 2) - which decrypts the record; the released session 0 does not *)
+Definition pol_sesscache : policy :=
+  {| p_expire := 100 * sec; p_rci := 10 * sec; p_precision := 1 * sec; p_cache_sk := true; p_cache_ik := true; p_shared_ik := false;
+     p_sk_pol := Rotation.simple_pol; p_ik_pol := Rotation.simple_pol; p_cache_sessions := true; p_sess_cap := 1;
+     p_sess_dur := 7200 * sec; p_sess_kind := Generic.Lru |}.
+Definition cached_closing_ops : list hop :=
+  [HNewFactory pol_sesscache (s "svc") (s "prod") None; HGetSession 0 (s "p"); HEncrypt 0 5 []; HGetSession 0 (s "q"); HDecrypt 0 0 [] [];
+   HCloseSession 0; HGetSession 0 (s "p")].
+
+
+Example cached_closing_nonvacuous :
+  let h := snd (hrun (hinit Rotation.t0) cached_closing_ops) in
+  okrun (s "svc") (s "prod") [] (hinit Rotation.t0) cached_closing_ops /\
+  nz_storeb (w_store (h_world h)) = true /\
+  fst (fst (hstep h (HDecrypt 2 0 [] []))) = ODec (Some 5%nat) /\
+  fst (fst (hstep h (HDecrypt 0 0 [] []))) <> ODec (Some 5%nat).
+Proof.
+  split; [apply okrunb_ok; vm_compute; reflexivity|]. split; [vm_compute; reflexivity|]. split; [vm_compute; reflexivity | vm_compute; discriminate].
 Qed.
